@@ -1,6 +1,6 @@
 //go:build verif
 
-//verif:aux scanner
+//verif:aux scanner for=trillian/migrillian/core
 
 package scanner
 
